@@ -34,6 +34,7 @@ class _Top:
 
 TOP = _Top()
 _MISSING = object()
+_NONE_ITEM = object()      # the item None of an iterator (None itself means: not determined)
 
 
 class Sym:
@@ -182,20 +183,61 @@ class Iter:
 class LazyGen(Iter):
     """A generator expression over a stateful iterator (a token stream, iter(x)): its items are produced on demand, so that a
     consumer that stops early (next(), any(), a for loop with break) leaves the rest in the underlying iterator."""
-    def __init__(self, node, source, closure, scope):
-        Iter.__init__(self, [])
+    def __init__(self, node, source, closure, scope, kind='genexp', fn=None):
+        self.pos = 0
         self.node, self.source, self.closure, self.scope = node, source, closure, scope
+        self.kind, self.fn = kind, fn        # genexp | takewhile | dropwhile | filter | filterfalse | map | enumerate
+        self.state = 0                       # takewhile: 1 = finished; dropwhile: 1 = no longer dropping; enumerate: next index
+
+    @property
+    def items(self):
+        raise AnalysisError('a lazy iterator (line %s) is consumed by code that takes all items at once and does not know lazy iterators'
+                            % getattr(self.node, 'lineno', '?'))
 
     def __repr__(self):
-        return 'LazyGen(line %s over %r)' % (getattr(self.node, 'lineno', '?'), self.source)
+        return 'LazyGen(%s, line %s over %r)' % (self.kind, getattr(self.node, 'lineno', '?'), self.source)
 
     def __deepcopy__(self, memo):
-        g = LazyGen(self.node, copy.deepcopy(self.source, memo), copy.deepcopy(self.closure, memo), self.scope)
+        g = LazyGen(self.node, None, None, self.scope, self.kind, None)
         memo[id(self)] = g
+        g.source, g.closure, g.fn, g.state = copy.deepcopy(self.source, memo), copy.deepcopy(self.closure, memo), copy.deepcopy(self.fn, memo), self.state
         return g
 
     def take(self):
         raise AnalysisError('a lazy generator expression is consumed by code that does not know it (line %s)' % getattr(self.node, 'lineno', '?'))
+
+
+class _YieldSignal(BaseException):
+    """A lazily interpreted generator reached a yield: control goes back to whoever asked for the next item."""
+    def __init__(self, value, state, node):
+        BaseException.__init__(self)
+        self.value, self.state, self.node = value, state, node
+
+
+class GenObj(Iter):
+    """A generator object of the analysed code, suspended: its local variables and the yield it stopped at.  Items are produced on
+    demand by Interp.gen_next, so that the effects of the generator and of its consumer happen in the order Python gives them."""
+    def __init__(self, node, info, scope, env, fname):
+        self.node, self.info, self.scope, self.env, self.fname = node, info, scope, env, fname
+        self.pc = None            # None: not started; a Yield/YieldFrom node: suspended there; 'done'
+        self.pos = 0
+
+    @property
+    def items(self):
+        raise AnalysisError('the generator %s is consumed by code that takes all items at once and does not know lazy generators' % self.fname)
+
+    def __repr__(self):
+        return 'GenObj(%s at %s)' % (self.fname, 'start' if self.pc is None else (self.pc if self.pc == 'done' else 'line %s' % getattr(self.pc, 'lineno', '?')))
+
+    def __deepcopy__(self, memo):
+        g = GenObj(self.node, self.info, self.scope, None, self.fname)
+        memo[id(self)] = g
+        g.env = copy.deepcopy(self.env, memo)
+        g.pc = self.pc
+        return g
+
+    def take(self):
+        raise AnalysisError('the generator %s is consumed by code that does not know lazy generators' % self.fname)
 
 
 class Stream(Iter):
@@ -282,6 +324,13 @@ def _freeze(v, _depth=0, _seen=None):
         return ('set',) + tuple(sorted(map(repr, v)))
     if isinstance(v, CountIter):
         return ('count', v.start, v.step, v.pos)
+    if isinstance(v, GenObj):
+        if id(v) in _seen:
+            return ('ref', 'gen')
+        _seen.add(id(v))
+        return ('gen', v.fname, v.pc if isinstance(v.pc, str) or v.pc is None else (v.pc.lineno, v.pc.col_offset), _freeze(v.env, _depth + 1, _seen))
+    if isinstance(v, LazyGen):
+        return ('lazy', v.kind, getattr(v.node, 'lineno', 0), v.state, _freeze(v.source, _depth + 1, _seen))
     if isinstance(v, Iter):
         return ('iter', v.pos, _freeze(v.items, _depth, _seen))
     if isinstance(v, TextObj):
@@ -328,8 +377,8 @@ def _shallow_sig(v, _depth=0):
     return None
 
 
-_INTERNAL_KEY = re.compile(r'__(caller|gen|yields|ysnap|fuse|iter|list|exitstacks|x\d+|k_\w+|base|idx|val|recv|fn|obj|f)@\d+$|__handling$|__exc$')
-_FRAME_LOCAL = re.compile(r'__(iter|list|exitstacks)@\d+$|__handling$')
+_INTERNAL_KEY = re.compile(r'__rx@\d+_\d+$|__(caller|gen|yields|ysnap|fuse|iter|list|exitstacks|yf|x\d+|k_\w+|base|idx|val|recv|fn|obj|f)@\d+$|__handling$|__exc$')
+_FRAME_LOCAL = re.compile(r'__rx@\d+_\d+$|__(iter|list|exitstacks|yf)@\d+$|__handling$')
 
 
 class _ModuleScope:
@@ -407,6 +456,8 @@ class Interp:
                  max_states=40000, exc_edges=True, record_conds=False, inline=0, precise_exc=False, heap=False, generators=False):
         self.max_unroll = 70
         self.run_init = False           # heap mode: interpret __init__ of instantiated repository classes
+        self.lazy_generators = bool(heap and precise_exc)          # generator functions give suspended generator objects (GenObj), resumed on demand
+        self._lazy_active = []
         self.generators = generators or (heap and precise_exc)    # interpret calls of generator helpers eagerly (their value is an iterator over the yields)
         self.heap = heap                # instantiating a repository class gives a mutable Obj instead of an Inst
         self.precise_exc = precise_exc  # exceptions only where one can occur: failed lookups on known containers, unknown calls
@@ -460,6 +511,10 @@ class Interp:
             for s in cur:
                 r = self.stmt(st_node, s)
                 for kind, lst in r.items():
+                    for x in lst:
+                        if any(k.startswith('__rx@') for k in x[0].env):
+                            for k in [k for k in x[0].env if k.startswith('__rx@')]:
+                                del x[0].env[k]
                     if self.precise_exc:
                         pend = [x for x in lst if '__exc' in x[0].env]
                         if pend:
@@ -505,6 +560,8 @@ class Interp:
     def st_FunctionDef(self, n, s):
         fv = Sym('func:%s' % n.name, truthy=True, attrs={'node': n} if isinstance(n, ast.FunctionDef) else None)
         s.env[n.name] = fv
+        if self.heap and isinstance(n, ast.FunctionDef):
+            s.env['__closure@%s_%d' % (n.name, n.lineno)] = s.env      # the frame the function closes over (it travels with the state)
         for dec in getattr(n, 'decorator_list', []):
             # @stack.callback on a nested function: registered with an ExitStack of this state (run when its `with` ends)
             if isinstance(dec, ast.Attribute) and dec.attr == 'callback':
@@ -524,6 +581,8 @@ class Interp:
             inl = self.inline(n.value, s)
             if inl is not None:
                 return {'fall': [(s2, None) for s2, v in inl]}
+        if isinstance(n.value, ast.YieldFrom) and self._lazy_active and not any(k.startswith('__yields@') for k in s.env):
+            return self._lazy_yield_from(n, s)
         if isinstance(n.value, ast.YieldFrom) and isinstance(n.value.value, ast.Call) and self.generators \
            and any(k.startswith('__yields@') for k in s.env):
             # `yield from helper(...)`: the helper's yields are the yields of this generator, in place
@@ -634,7 +693,7 @@ class Interp:
                     except Exception:
                         res = TOP
                 elif isinstance(cur, list) and isinstance(v, (list, tuple, Iter)) and not isinstance(v, CountIter) and isinstance(n.op, ast.Add):
-                    if isinstance(v, LazyGen):
+                    if isinstance(v, (LazyGen, GenObj)):
                         v = self.lazy_drain(v, s3)
                     if v is None:
                         res = TOP
@@ -650,7 +709,7 @@ class Interp:
 
     def assign(self, t, v, s, node, quiet=False):
         if isinstance(t, (ast.Tuple, ast.List)):
-            if isinstance(v, LazyGen):
+            if isinstance(v, (LazyGen, GenObj)):
                 v = self.lazy_drain(v, s)
                 v = TOP if v is None else v
             if isinstance(v, Iter) and not isinstance(v, CountIter):
@@ -892,6 +951,14 @@ class Interp:
                 if item.optional_vars is None and isinstance(item.context_expr, ast.Call) and _text(item.context_expr.func) in ('contextlib.suppress', 'suppress'):
                     supp = [_text(a).split('.')[-1] for a in item.context_expr.args]
         outs = self.block(n.body, states)
+        return self._with_tail(n, outs, supp)
+
+    def _with_tail(self, n, outs, supp=None):
+        if supp is None:
+            supp = []
+            for item in n.items:
+                if item.optional_vars is None and isinstance(item.context_expr, ast.Call) and _text(item.context_expr.func) in ('contextlib.suppress', 'suppress'):
+                    supp = [_text(a).split('.')[-1] for a in item.context_expr.args]
         if supp and self.precise_exc and outs.get('raise'):
             kept = []
             handler = ast.ExceptHandler(type=ast.Tuple(elts=[ast.Name(id=x, ctx=ast.Load()) for x in supp], ctx=ast.Load()), name=None, body=[])
@@ -935,6 +1002,11 @@ class Interp:
         res = {}
         for s2, it in self.expr(n.iter, s):
             it = self.materialize(it, s2)
+            if self._lazy_active and self._inline_stack and self._inline_stack[-1] is self._lazy_active[-1].node and not isinstance(it, Iter) \
+               and any(isinstance(x, (ast.Yield, ast.YieldFrom)) for b in n.body for x in ast.walk(b)):
+                seq = self._seq_of(it)
+                if seq is not None:
+                    it = Iter(seq)          # the loop may be suspended at a yield: its position lives in the frame
             if isinstance(it, Iter):
                 if getattr(it, 'lazy_mismatch', None):
                     self.imprecise.append(it.lazy_mismatch)
@@ -985,11 +1057,16 @@ class Interp:
                             exits.append(st)
                         continue
                     real_none = False
-                    if isinstance(iterable, LazyGen):
-                        item = self.lazy_take(st.env['__iter@%d' % n.lineno], st)
+                    if isinstance(iterable, (LazyGen, GenObj)):
+                        item = self._take(st.env['__iter@%d' % n.lineno], st)
                         if item is None:
-                            self.imprecise.append('the items of a generator expression are not determined (line %s)' % n.lineno)
+                            self.imprecise.append('the items of a lazy iterator are not determined (line %s)' % n.lineno)
                             item = STOP
+                        elif item is _NONE_ITEM:
+                            item, real_none = None, True
+                        if self.precise_exc and '__exc' in st.env:
+                            outs.setdefault('raise', []).append((st, st.env.pop('__exc')))      # the generator raised
+                            continue
                     elif isinstance(iterable, Iter):
                         item = st.env['__iter@%d' % n.lineno].take()
                         real_none = item is None               # an iterator over known items: None is an item like any other
@@ -1103,7 +1180,14 @@ class Interp:
             cur = self._merge(nxt)
             if not cur:
                 break
-        normal = cur
+        return self._try_tail(n, cur, pending, body_out)
+
+    def _try_tail(self, n, normal, pending, body_out, handlers=True, orelse=True):
+        """What follows the body of a try statement: handlers for the pending exceptions, else clause, finally clause."""
+        if not handlers:
+            for st, name in pending:
+                body_out.setdefault('raise', []).append((st, name))
+            pending = []
         for st, name in pending:
             caught = False
             for h in n.handlers:
@@ -1125,7 +1209,7 @@ class Interp:
                     break
             if not caught:
                 body_out.setdefault('raise', []).append((st, name))
-        if n.orelse and normal:
+        if n.orelse and normal and orelse:
             res = self.block(n.orelse, normal)
             for kind, lst in res.items():
                 body_out.setdefault(kind, []).extend(lst)
@@ -1465,6 +1549,12 @@ class Interp:
         if not bound:
             # a nested function sees the enclosing locals
             if info is None:
+                cenv = s.env.get('__closure@%s_%d' % (node.name, node.lineno)) if isinstance(node, ast.FunctionDef) else None
+                if isinstance(cenv, dict) and cenv is not s.env:
+                    shadow = set(local)
+                    for k, v in cenv.items():
+                        if k not in shadow and not k.startswith('__'):
+                            cs.env[k] = v          # the defining frame, wherever the function is called from
                 for k, v in s.env.items():
                     cs.env.setdefault(k, v)
                 # free variables of a closure that was handed over through other helpers
@@ -1473,6 +1563,7 @@ class Interp:
                         cs.env.setdefault(kk, vv)
         cs.env.update(local)
         ykey = '__yields@%d' % len(self._inline_stack)
+        share_yields_req = share_yields
         if is_gen and share_yields:
             is_gen = False              # its yields go to the enclosing generator's list (ev_Yield picks the innermost list)
         gen_before = None
@@ -1497,6 +1588,11 @@ class Interp:
             cs.env['self'] = s.env['self']
         if bound and receiver is None and 'cls' in s.env and 'cls' not in local and node.args.args and node.args.args[0].arg == 'cls':
             cs.env['cls'] = s.env['cls']
+        if is_gen and self.lazy_generators and fuse_req is None and not share_yields_req:
+            # a generator object: nothing of the body runs now
+            genv = {k: v for k, v in cs.env.items() if not re.match(r'__(caller|yields|ysnap|fuse|gen)@\d+$', k) and not _FRAME_LOCAL.match(k)}
+            g = GenObj(node, info, self.scope if info is None else info, genv, self.canon(fname, s))
+            return [(s, g)]
         self.emit(cs, ('call', self.canon(fname, s), _evargs(args, call.args), call.lineno))
         self.emit(cs, ('enter', self.canon(fname, s), call.lineno))
         saved_scope, saved_cache = self.scope, getattr(self, '_locals_cache', None)
@@ -2156,10 +2252,8 @@ class Interp:
 
     def _seq_in(self, v, s):
         """As _seq_of; a heap object that defines __iter__ is iterated by interpreting that method."""
-        if isinstance(v, LazyGen):
-            v = self.lazy_drain(v, s)
-            if v is None:
-                return None
+        if isinstance(v, (LazyGen, GenObj)):
+            return self._drain(v, s)
         if isinstance(v, Obj):
             v = self.materialize(v, s)
         return self._seq_of(v)
@@ -2668,7 +2762,7 @@ class Interp:
                 return True
             g = n.generators[i]
             it = self.materialize(self.ev(g.iter, s), s)
-            if isinstance(it, LazyGen):
+            if isinstance(it, (LazyGen, GenObj)):
                 it = self.lazy_drain(it, s)
                 if it is None:
                     return False
@@ -2726,8 +2820,20 @@ class Interp:
     def ev_GeneratorExp(self, n, s):
         if self.heap and len(n.generators) == 1 and not n.generators[0].is_async:
             g = n.generators[0]
-            src = self.ev(g.iter, s) if isinstance(g.iter, (ast.Name, ast.Attribute)) else None
-            if isinstance(src, Iter) and not isinstance(src, LazyGen) and not getattr(src, 'lazy_mismatch', None):
+            src = self.ev(g.iter, s) if isinstance(g.iter, (ast.Name, ast.Attribute)) or self.lazy_generators else None
+            if src is not None and not isinstance(src, Iter) and not isinstance(g.iter, (ast.Name, ast.Attribute)):
+                # the first iterable was evaluated (a call, possibly with effects): keep its value for the eager path below
+                key = '__genexp_src@%d' % len(self._inline_stack)
+                s.env[key] = src
+                n2 = ast.GeneratorExp(elt=n.elt, generators=[ast.comprehension(target=g.target, iter=ast.Name(id=key, ctx=ast.Load()), ifs=g.ifs, is_async=0)])
+                ast.copy_location(n2, n)
+                ast.fix_missing_locations(n2)
+                try:
+                    r = self.ev_ListComp(n2, s)
+                finally:
+                    s.env.pop(key, None)
+                return Iter(r) if isinstance(r, list) else TOP
+            if isinstance(src, Iter) and not getattr(src, 'lazy_mismatch', None):
                 # over a stateful iterator: lazy (the first iterable is evaluated now, as in Python)
                 targets = {x.id for x in ast.walk(g.target) if isinstance(x, ast.Name)}
                 free = {x.id for x in ast.walk(n) if isinstance(x, ast.Name) and isinstance(x.ctx, ast.Load)} - targets
@@ -2737,8 +2843,42 @@ class Interp:
         return Iter(r) if isinstance(r, list) else TOP
 
     def lazy_take(self, gen, s):
-        """Next item of a lazy generator expression: STOP, the item, or None when a condition is not determined."""
+        """Next item of a lazy iterator (generator expression, takewhile, filter, map, ... over a stateful source):
+        STOP, the item (_NONE_ITEM for None), or None when a condition is not determined."""
         n = gen.node
+        if gen.kind != 'genexp':
+            if gen.kind == 'takewhile' and gen.state:
+                return STOP
+            while True:
+                item = self._take(gen.source, s)
+                if item is STOP or item is None:
+                    return item
+                val = None if item is _NONE_ITEM else item
+                if gen.kind == 'enumerate':
+                    gen.state += 1
+                    return (gen.state - 1, val)
+                r = self.apply_value(gen.fn, [val], {}, s, getattr(n, 'lineno', 0)) if gen.fn is not None else (val,)
+                if r is None:
+                    self.unknown_branches.append('%s over a lazy iterator: the function could not be applied (line %s)' % (gen.kind, getattr(n, 'lineno', '?')))
+                    return None
+                if gen.kind == 'map':
+                    return _NONE_ITEM if r[0] is None else r[0]
+                t = self.truth_in(r[0], s)
+                if t is None:
+                    self.unknown_branches.append('%s over a lazy iterator: test not determined (line %s)' % (gen.kind, getattr(n, 'lineno', '?')))
+                    return None
+                if gen.kind == 'takewhile':
+                    if t:
+                        return item
+                    gen.state = 1
+                    return STOP
+                if gen.kind == 'dropwhile':
+                    if gen.state or not t:
+                        gen.state = 1
+                        return item
+                    continue
+                if (gen.kind == 'filter') == bool(t):
+                    return item
         g = n.generators[0]
         names = {x.id for x in ast.walk(g.target) if isinstance(x, ast.Name)} | set(gen.closure)
         saved = {nm: s.env.get(nm, _MISSING) for nm in names}
@@ -2747,10 +2887,10 @@ class Interp:
         try:
             s.env.update(gen.closure)
             while True:
-                item = gen.source.take()
-                if item is STOP:
-                    return STOP
-                self.assign(g.target, item, s, n, quiet=True)
+                item = self._take(gen.source, s)
+                if item is STOP or item is None:
+                    return item
+                self.assign(g.target, None if item is _NONE_ITEM else item, s, n, quiet=True)
                 ok = True
                 for c in g.ifs:
                     t = self.truth_in(self.ev(c, s), s)
@@ -2761,7 +2901,8 @@ class Interp:
                         ok = False
                         break
                 if ok:
-                    return self.ev(n.elt, s)
+                    v = self.ev(n.elt, s)
+                    return _NONE_ITEM if v is None else v
         finally:
             self.scope, self._locals_cache = saved_scope, saved_cache
             walrus = {x.target.id for x in ast.walk(n) if isinstance(x, ast.NamedExpr) and isinstance(x.target, ast.Name)}
@@ -2774,16 +2915,9 @@ class Interp:
                     s.env[nm] = v
 
     def lazy_drain(self, gen, s):
-        """All remaining items of a lazy generator expression as a plain iterator (None when not determined)."""
-        out = []
-        for _ in range(4096):
-            item = self.lazy_take(gen, s)
-            if item is STOP:
-                return Iter(out)
-            if item is None:
-                return None
-            out.append(item)
-        return None
+        """All remaining items of a lazy iterator as a plain iterator (None when not determined)."""
+        out = self._drain(gen, s)
+        return None if out is None else Iter(out)
 
     def ev_DictComp(self, n, s):
         r = self._comprehend(n, s, lambda st: (self.ev(n.key, st), self.ev(n.value, st)))
@@ -2810,6 +2944,8 @@ class Interp:
             snaps = s.env.get('__ysnap@%d' % d)
             if isinstance(snaps, list):
                 snaps.append(_shallow_sig(v))
+        elif self._lazy_active:
+            raise _YieldSignal(v, s, n)
         oy = getattr(self.h, 'on_yield', None)
         if oy is not None and oy(self, v, s) is STOP:
             s.env['__exc'] = 'GeneratorExit'       # the consumer stops asking: the generator is closed here
@@ -2895,6 +3031,261 @@ class Interp:
             return
         raise _FuseExit(kind, st2, val)
 
+    # -- lazy generator objects ------------------------------------------------------
+    def _as_iterator(self, v, s):
+        """v as something _take() understands: Iter / GenObj / LazyGen; None when not determined."""
+        if isinstance(v, Iter):
+            return v
+        v = self.materialize(v, s) if isinstance(v, Obj) else v
+        if isinstance(v, Iter):
+            return v
+        seq = self._seq_of(v)
+        return Iter(seq) if seq is not None else None
+
+    def _take(self, it, s):
+        """Next item of any iterator value: the item, STOP, or None when it is not determined."""
+        if isinstance(it, GenObj):
+            return self.gen_next(it, s)
+        if isinstance(it, LazyGen):
+            return self.lazy_take(it, s)
+        item = it.take()
+        return _NONE_ITEM if item is None else item
+
+    def _drain(self, it, s, limit=4096):
+        """All remaining items of an iterator value as a list; None when not determined (or endless)."""
+        if isinstance(it, Iter) and not isinstance(it, (GenObj, LazyGen, CountIter)):
+            out = list(it.items[it.pos:])
+            it.pos = len(it.items)
+            return out
+        if isinstance(it, CountIter):
+            return None
+        out = []
+        for _ in range(limit):
+            item = self._take(it, s)
+            if item is STOP:
+                return out
+            if item is None:
+                return None
+            out.append(None if item is _NONE_ITEM else item)
+        return None
+
+    def _sync_shared(self, src, dst, same_self):
+        def shared(k):
+            if _INTERNAL_KEY.match(k) or k.startswith('__cls:') and False:
+                return False
+            if (k.startswith('self.') or k.startswith('self[')) and not same_self:
+                return False
+            return k.startswith('__')
+        for k in [k for k in dst if shared(k) and k not in src]:
+            del dst[k]
+        for k, val in list(src.items()):
+            if shared(k):
+                dst[k] = val
+
+    def gen_next(self, gen, s):
+        """Resume the generator object `gen` until its next yield.  The item, STOP, or None when the run is not deterministic."""
+        if gen.pc == 'done':
+            return STOP
+        if len(self._lazy_active) > 12:
+            raise AnalysisError('generators nested too deeply (%s)' % gen.fname)
+        same_self = gen.env.get('self') is s.env.get('self')
+        self._sync_shared(s.env, gen.env, same_self)
+        cs = State(gen.env, s.trace, dict(s.assumed))
+        cs.flags = s.flags
+        saved = (self.scope, getattr(self, '_locals_cache', None))
+        self.scope, self._locals_cache = gen.scope, None
+        self._inline_stack.append(gen.node)
+        self._lazy_active.append(gen)
+        item, final = None, None
+        try:
+            try:
+                if gen.pc is None:
+                    outs = self.block(gen.node.body, [cs])
+                else:
+                    outs = self._resume_level(self._yield_chain(gen.node, gen.pc), 0, cs)
+                flat = [(kind, st, v) for kind, lst in outs.items() for st, v in lst]
+                if len(flat) != 1:
+                    self.unknown_branches.append('the generator %s does not run deterministically (%d outcomes)' % (gen.fname, len(flat)))
+                    gen.pc = 'done'
+                    return None
+                kind, final, v = flat[0]
+                gen.pc = 'done'
+                item = STOP
+                if kind == 'raise' or '__exc' in final.env:
+                    final.env.setdefault('__exc', v if isinstance(v, str) else 'Exception')
+            except _YieldSignal as y:
+                final = y.state
+                gen.pc = y.node
+                item = _NONE_ITEM if y.value is None else y.value
+        finally:
+            self._lazy_active.pop()
+            self._inline_stack.pop()
+            self.scope, self._locals_cache = saved
+        if final.env is not gen.env:
+            gen.env = final.env            # (the frame's dictionary may have been replaced by an equal one; the objects are the same)
+        exc = final.env.pop('__exc', None)
+        self._sync_shared(gen.env, s.env, same_self)
+        s.trace, s.flags = final.trace, final.flags
+        if exc is not None:
+            s.env['__exc'] = exc
+            return STOP
+        return item
+
+    def _yield_chain(self, fnode, ynode):
+        """Where a yield expression sits: [(statement list, index), ...] from the function body down to its own statement."""
+        cache = self.__dict__.setdefault('_chain_cache', {})
+        key = (id(fnode), id(ynode))
+        if key in cache:
+            return cache[key][0]
+
+        def own_exprs(st):
+            if isinstance(st, (ast.If, ast.While)):
+                return [st.test]
+            if isinstance(st, (ast.For, ast.AsyncFor)):
+                return [st.iter]
+            if isinstance(st, (ast.With, ast.AsyncWith)):
+                return [i.context_expr for i in st.items]
+            if isinstance(st, ast.Try):
+                return []
+            if isinstance(st, (ast.FunctionDef, ast.AsyncFunctionDef, ast.ClassDef)):
+                return []
+            return [st]
+
+        def lists(st):
+            out = []
+            for f in ('body', 'orelse', 'finalbody'):
+                v = getattr(st, f, None)
+                if isinstance(v, list) and v and isinstance(v[0], ast.stmt):
+                    out.append(v)
+            for h in getattr(st, 'handlers', []) or []:
+                out.append(h.body)
+            return out
+
+        def find(stmts):
+            for i, st in enumerate(stmts):
+                for e in own_exprs(st):
+                    if any(x is ynode for x in ast.walk(e)):
+                        if not (isinstance(st, ast.Expr) and st.value is ynode) and not (isinstance(st, ast.Assign) and st.value is ynode):
+                            raise AnalysisError('a yield inside a larger expression is not supported (line %s)' % getattr(ynode, 'lineno', '?'))
+                        return [(stmts, i)]
+                if isinstance(st, (ast.FunctionDef, ast.AsyncFunctionDef, ast.ClassDef)):
+                    continue
+                for sub in lists(st):
+                    r = find(sub)
+                    if r is not None:
+                        return [(stmts, i)] + r
+            return None
+        chain = find(fnode.body)
+        if chain is None:
+            raise AnalysisError('yield at line %s not found in its function' % getattr(ynode, 'lineno', '?'))
+        cache[key] = (chain, fnode, ynode)
+        return chain
+
+    def _after(self, outs, rest):
+        """Continue the 'fall' states of `outs` with the statements `rest`."""
+        res = {k: list(v) for k, v in outs.items() if k != 'fall'}
+        falls = [st for st, _v in outs.get('fall', [])]
+        if self.precise_exc:
+            pend = [st for st in falls if '__exc' in st.env]
+            falls = [st for st in falls if '__exc' not in st.env]
+            for st in pend:
+                res.setdefault('raise', []).append((st, st.env.pop('__exc')))
+        if falls:
+            if rest:
+                for k, lst in self.block(rest, falls).items():
+                    res.setdefault(k, []).extend(lst)
+            else:
+                res.setdefault('fall', []).extend((st, None) for st in falls)
+        return res
+
+    def _resume_level(self, chain, depth, cs):
+        stmts, idx = chain[depth]
+        st = stmts[idx]
+        if depth == len(chain) - 1:
+            if isinstance(st, ast.Expr) and isinstance(st.value, ast.YieldFrom):
+                outs = self._lazy_yield_from(st, cs)
+            elif isinstance(st, ast.Assign):
+                for t in st.targets:
+                    self.assign(t, None, cs, st, quiet=True)      # nothing is sent into the generators of the analysed code
+                outs = {'fall': [(cs, None)]}
+            else:
+                outs = {'fall': [(cs, None)]}
+        else:
+            outs = self._resume_stmt(st, chain, depth + 1, cs)
+        return self._after(outs, stmts[idx + 1:])
+
+    def _resume_stmt(self, st, chain, depth, cs):
+        lst = chain[depth][0]
+        if isinstance(st, ast.If):
+            return self._resume_level(chain, depth, cs)
+        if isinstance(st, (ast.For, ast.While)):
+            inner = self._resume_level(chain, depth, cs)
+            if lst is st.orelse:
+                return inner
+            res = {k: list(v) for k, v in inner.items() if k not in ('fall', 'continue', 'break')}
+            res.setdefault('fall', []).extend(inner.get('break', []))
+            again = [x[0] for x in inner.get('fall', []) + inner.get('continue', [])]
+            for s2 in again:
+                if self.precise_exc and '__exc' in s2.env:
+                    res.setdefault('raise', []).append((s2, s2.env.pop('__exc')))
+                    continue
+                it = None
+                if isinstance(st, ast.For):
+                    it = s2.env.get('__iter@%d' % st.lineno)
+                    if not isinstance(it, Iter):
+                        if s2.env.get('__list@%d' % st.lineno) is not None:
+                            raise AnalysisError('the loop at line %s cannot be resumed: its position is not kept in the frame' % st.lineno)
+                        it = None           # items come from the scenario (hooks.iter_item keeps the position)
+                for k, l2 in self._loop(st, s2, it).items():
+                    res.setdefault(k, []).extend(l2)
+            return res
+        if isinstance(st, ast.Try):
+            inner = self._resume_level(chain, depth, cs)
+            in_body = lst is st.body
+            in_final = lst is st.finalbody
+            if in_final:
+                return inner
+            body_out = {k: list(v) for k, v in inner.items() if k not in ('fall', 'raise')}
+            normal = [x[0] for x in inner.get('fall', [])]
+            pending = list(inner.get('raise', []))
+            if in_body:
+                return self._try_tail(st, normal, pending, body_out)
+            # resumed inside a handler or the else clause: only the finally clause is still to come
+            return self._try_tail(st, normal, pending, body_out, handlers=False, orelse=False)
+        if isinstance(st, (ast.With, ast.AsyncWith)):
+            inner = self._resume_level(chain, depth, cs)
+            return self._with_tail(st, inner)
+        raise AnalysisError('a generator suspended inside a %s statement cannot be resumed' % type(st).__name__)
+
+    def _lazy_yield_from(self, st, cs):
+        """yield from X in a lazily interpreted generator: one item per resumption."""
+        key = '__yf@%d' % st.lineno
+        if key not in cs.env:
+            v = self.ev(st.value.value, cs)
+            if self.precise_exc and '__exc' in cs.env:
+                return {'fall': [(cs, None)]}
+            it = self._as_iterator(v, cs)
+            if it is None:
+                self.imprecise.append('yield from %s: the items are not determined (line %s)' % (_text(st.value.value)[:50], st.lineno))
+                return {'fall': [(cs, None)]}
+            cs.env[key] = it
+        item = self._take(cs.env[key], cs)
+        if item is STOP or item is None:
+            if item is None:
+                self.imprecise.append('yield from %s: an item is not determined (line %s)' % (_text(st.value.value)[:50], st.lineno))
+            cs.env.pop(key, None)
+            return {'fall': [(cs, None)]}
+        raise _YieldSignal(None if item is _NONE_ITEM else item, cs, st.value)
+
+    def _callee_probe(self, call, s):
+        saved_recv, saved_forced = getattr(self, '_receiver', None), getattr(self, '_force_callee', None)
+        try:
+            probe = self._callee(self._norm_call(call, s), s)
+        except AnalysisError:
+            probe = None
+        self._receiver, self._force_callee = saved_recv, saved_forced
+        return probe is not None
+
     def _is_generator_call(self, call, s):
         saved_recv, saved_forced = getattr(self, '_receiver', None), getattr(self, '_force_callee', None)
         try:
@@ -2909,6 +3300,8 @@ class Interp:
         """`for x in self.gen(...): body` over a generator function of the analysed code, interpreted lazily: every yield runs the
         loop body before the generator continues (the order of effects of the two is the order Python gives them).  Outcomes of the
         for statement, or None when this does not apply (then the generator is interpreted eagerly)."""
+        if self.lazy_generators:
+            return None               # generator objects are lazy anyway: the ordinary loop takes their items one by one
         if not (self.generators and self.heap and self.precise_exc and isinstance(n.iter, ast.Call) and self.inline_depth > 0
                 and len(self._inline_stack) < self.inline_depth and self.model is not None):
             return None
@@ -3140,7 +3533,24 @@ class Interp:
         return None
 
     def _norm_call(self, call, s):
-        """(A if test else B)(args) with a determined test is the call A(args) or B(args)."""
+        """(A if test else B)(args) with a determined test is the call A(args) or B(args); the receiver of f(...).method(args) is
+        evaluated once and kept under a temporary name (looking for the method must not run f a second time)."""
+        f = call.func
+        if self.heap and isinstance(f, ast.Attribute) and not isinstance(f.value, (ast.Name, ast.Attribute, ast.Constant)) \
+           and any(isinstance(x, (ast.Call, ast.NamedExpr, ast.Yield, ast.Await)) for x in ast.walk(f.value)) \
+           and not (isinstance(f.value, ast.Call) and isinstance(f.value.func, ast.Name) and f.value.func.id == 'super'):
+            key = '__rx@%d_%d' % (getattr(f.value, 'lineno', 0), getattr(f.value, 'col_offset', 0))
+            if key not in s.env:
+                s.env[key] = self.ev(f.value, s)
+            cache = self.__dict__.setdefault('_norm_cache', {})
+            ck = (id(call), 'rx')
+            if ck not in cache:
+                new = ast.Call(func=ast.Attribute(value=ast.Name(id=key, ctx=ast.Load()), attr=f.attr, ctx=ast.Load()), args=call.args, keywords=call.keywords)
+                ast.copy_location(new, call)
+                ast.copy_location(new.func, f)
+                ast.copy_location(new.func.value, f.value)
+                cache[ck] = (new, call)
+            call = cache[ck][0]
         k = 0
         while isinstance(call.func, ast.IfExp) and k < 4:
             k += 1
@@ -3159,7 +3569,14 @@ class Interp:
         return call
 
     def ev_Call(self, n, s):
-        n = self._norm_call(n, s)
+        n2 = self._norm_call(n, s)
+        try:
+            return self._ev_call(n2, s)
+        finally:
+            if n2 is not n and isinstance(n2.func, ast.Attribute) and isinstance(n2.func.value, ast.Name) and n2.func.value.id.startswith('__rx@'):
+                s.env.pop(n2.func.value.id, None)
+
+    def _ev_call(self, n, s):
         fname = self.canon(_text(n.func), s)
         if isinstance(n.func, ast.Name):
             cur = s.env.get(n.func.id)
@@ -3183,25 +3600,27 @@ class Interp:
                 v = self.ev(k.value, s)
                 if k.arg is not None:
                     kwargs[k.arg] = v
-        if any(isinstance(a, LazyGen) for a in args):
-            if fname in ('next', 'any', 'all') and fname not in s.env and isinstance(args[0], LazyGen):
+        if any(isinstance(a, (LazyGen, GenObj)) for a in args):
+            if fname in ('next', 'any', 'all') and fname not in s.env and isinstance(args[0], (LazyGen, GenObj)):
                 gen = args[0]
                 if fname == 'next':
-                    item = self.lazy_take(gen, s)
+                    item = self._take(gen, s)
                     if item is None:
                         return TOP
+                    if self.precise_exc and '__exc' in s.env:
+                        return TOP
                     if item is not STOP:
-                        return item
+                        return None if item is _NONE_ITEM else item
                     if len(args) > 1:
                         return args[1]
                     if self.precise_exc:
                         s.env['__exc'] = 'StopIteration'
                     return TOP
                 while True:
-                    item = self.lazy_take(gen, s)
+                    item = self._take(gen, s)
                     if item is STOP:
                         return fname == 'all'
-                    t = None if item is None else self.truth_in(item, s)
+                    t = None if item is None else self.truth_in(None if item is _NONE_ITEM else item, s)
                     if t is None:
                         self.unknown_branches.append('%s(...) over %s (line %s)' % (fname, _text(n.args[0])[:60], n.lineno))
                         return TOP
@@ -3211,11 +3630,19 @@ class Interp:
                         return False
             elif fname == 'iter' and len(args) == 1:
                 return args[0]
+            elif fname == 'enumerate' and fname not in s.env and len(args) == 1 and set(kwargs) <= {'start'} and isinstance(kwargs.get('start', 0), int):
+                g = LazyGen(n, args[0], {}, self.scope, 'enumerate')
+                g.state = kwargs.get('start', 0)
+                return g
+            elif isinstance(fval_probe := (s.env.get(n.func.id) if isinstance(n.func, ast.Name) else None), (Sym, M.FunctionInfo)) \
+                    or self._callee_probe(n, s) or (isinstance(n.func, ast.Name) and n.func.id in ('takewhile', 'dropwhile', 'filter', 'filterfalse', 'map', 'isinstance', 'id', 'type')) \
+                    or fname.split('.')[-1] in ('takewhile', 'dropwhile', 'filterfalse'):
+                pass                # handed on as an object (a helper of the analysed code, or a lazy wrapper)
             else:
                 # any other consumer takes everything
                 conv = []
                 for a in args:
-                    if isinstance(a, LazyGen):
+                    if isinstance(a, (LazyGen, GenObj)):
                         a = self.lazy_drain(a, s)
                         if a is None:
                             self.imprecise.append('the items of the generator expression handed to %s are not determined (line %s)' % (fname, n.lineno))
@@ -3357,10 +3784,8 @@ class Interp:
             kind = (fval.name if isinstance(fval, M.External) else n.func.id).split('.')[-1]
             seq = args[1]
             src_iter = None
-            if isinstance(seq, LazyGen):
-                seq = self.lazy_drain(seq, s)
-                if seq is None:
-                    return TOP
+            if isinstance(seq, (LazyGen, GenObj)) or (isinstance(seq, CountIter) and kind != 'takewhile'):
+                return LazyGen(n, seq, {}, self.scope, kind, args[0])
             if isinstance(seq, CountIter) and kind == 'takewhile':
                 src_iter = seq
                 seq = [seq.start + (seq.pos + i) * seq.step for i in range(64)]
@@ -3602,7 +4027,15 @@ class Interp:
                     return TOP
             return TOP
         if isinstance(recv, str):
-            if all(is_concrete(a) for a in args) and all(_plain(v) for v in kwargs.values()):
+            if any(isinstance(a, Iter) for a in args):
+                conv = []
+                for a in args:
+                    if isinstance(a, Iter) and not isinstance(a, (CountIter, LazyGen, GenObj)):
+                        seq = self._seq_of(a)           # a plain iterator handed to join(): consumed there
+                        a = [str(x) if isinstance(x, TextObj) else x for x in seq]
+                    conv.append(a)
+                args = conv
+            if all(is_concrete(a) and not isinstance(a, Iter) for a in args) and all(_plain(v) for v in kwargs.values()):
                 try:
                     return getattr(recv, meth)(*args, **kwargs)
                 except Exception:
